@@ -518,7 +518,7 @@ fn identity_twin_templates(rep: &mut Report) {
 
 /// C07: in a chain of one operator the left operand - a whole application, its failure included - is finished before the
 /// next operand is touched; and a `match` run again evaluates its candidates from the top again
-fn chain_and_rerun_templates(rep: &mut Report) {
+fn chain_and_rerun_templates(rep: &mut Report, prop: &str) {
     use crate::ast::PRELUDE;
     let mut cases: Vec<(String, String, Vec<i64>)> = Vec::new();
     for (op, bad, kind) in [("/", "0", "ZeroDivision"), ("%", "0", "ZeroModulo"), ("**", "(-1)", "NegativeExponent"), ("<<", "64", "OverflowShift"), (">>", "(-1)", "OverflowShift")] {
@@ -554,7 +554,7 @@ fn chain_and_rerun_templates(rep: &mut Report) {
         }
         let got_log = run.log.clone().unwrap_or_default();
         if got != want || got_log != log {
-            rep.violation(&format!("c07:chain-and-rerun-template:{}", truncate(&body, 50)), &format!("`{body}` gave {got} with effect log {got_log:?}, expected {want} with {log:?}"), "diff", &format!("#template {want}\n{src}\n"));
+            rep.violation(&format!("{}:chain-and-rerun-template:{}", prop.to_lowercase(), truncate(&body, 50)), &format!("`{body}` gave {got} with effect log {got_log:?}, expected {want} with {log:?}"), "diff", &format!("#template {want}\n{src}\n"));
         }
     }
 }
@@ -598,10 +598,11 @@ pub fn run(cfg: &Cfg, rep: &mut Report, spec: &Spec) {
     let deadline = Deadline::new(cfg.budget_s);
     if spec.prop == "C07" && cfg.shard == 0 {
         short_circuit_templates(rep);
-        chain_and_rerun_templates(rep);
+        chain_and_rerun_templates(rep, "C07");
     }
     if spec.prop == "C12" && cfg.shard == 0 {
         dead_branch_templates(rep);
+        chain_and_rerun_templates(rep, "C12");
     }
     if spec.prop == "C13" && cfg.shard == 0 {
         cell_negative_templates(rep);
